@@ -76,6 +76,8 @@ def run(chk, facts, tier):
     for fn in variants(facts, SI + 'reset_encryption', chk):
         ok = any(c.args() and cval(c.args()[0]) == 0 for c in fn.body.calls('is_encrypted')) and bool(fn.body.calls('stop_receive_encrypted')) and bool(fn.body.calls('stop_transmit_encrypted'))
         chk.instance('pause-and-reset-unencrypt', fn, 'reset_encryption', ok, '' if ok else 'reset does not return the link to unencrypted', key='reset')
+        flag = [st for tgt, op, val, st in stores(fn.body) if target_name(tgt) == 'start_encryption_requested_' and cval(val) == 0 and not fn.guards(st)]
+        chk.instance('pause-and-reset-unencrypt', fn, 'reset_encryption clears start_encryption_requested_', bool(flag), '' if flag else 'the "LL_START_ENC_REQ sent, response outstanding" flag survives the connection: on the next connection a bare LL_START_ENC_RSP is accepted and the link reported encrypted without a key having been supplied for it', key='reset flag')
     for name in ('disconnect', 'force_disconnect'):
         for fn in facts.fns(LL + name):
             cs = fn.body.calls('reset_encryption')
